@@ -176,4 +176,265 @@ theorem safe_b64 : SafeEnc b64E where
     exact ⟨3 * k, hk2, hk⟩
   enc_split := fun h x y hx => b64enc_append3 h x y hx
 
+/-! ### the blocks of a compressed array -/
+
+theorem sumList_take_succ : ∀ (S : List Nat) (i : Nat), i < S.length →
+    sumList (S.take (i + 1)) = sumList (S.take i) + S.getD i 0
+  | [], i, h => by simp at h
+  | x :: r, 0, _ => by simp [sumList]
+  | x :: r, i + 1, h => by
+    have ih := sumList_take_succ r i (by simpa using h)
+    simp only [sumList, List.take_succ_cons, List.foldr_cons, List.getD_cons_succ] at ih ⊢
+    omega
+
+/-- the block a byte position falls into -/
+theorem find_block : ∀ (S : List Nat) (m : Nat), m < sumList S →
+    ∃ j, j < S.length ∧ sumList (S.take j) ≤ m ∧ m < sumList (S.take (j + 1))
+  | [], m, h => by simp [sumList] at h
+  | x :: r, m, h => by
+    by_cases hx : m < x
+    · refine ⟨0, by simp, by simp [sumList], ?_⟩
+      simpa [sumList] using hx
+    · have hlt : m - x < sumList r := by
+        simp only [sumList, List.foldr_cons] at h ⊢; omega
+      obtain ⟨j, hj, h1, h2⟩ := find_block r (m - x) hlt
+      refine ⟨j + 1, by simpa using hj, ?_, ?_⟩
+      · simp only [List.take_succ_cons, sumList, List.foldr_cons] at h1 ⊢; omega
+      · simp only [List.take_succ_cons, sumList, List.foldr_cons] at h2 ⊢; omega
+
+/-- what `decoded[offsets[i] : offsets[i + 1]]` is when only the first `m` bytes of the blocks are there -/
+theorem block_arg (L : List Bytes) (i m : Nat) (hi : i < L.length) :
+    ((L.flatten.take m).take (sumList ((L.map List.length).take (i + 1)))).drop (sumList ((L.map List.length).take i))
+      = (L.getD i []).take
+          (min (sumList ((L.map List.length).take (i + 1))) m - sumList ((L.map List.length).take i)) := by
+  have hs := flatten_slice L i hi
+  have h1 := sumList_take_succ (L.map List.length) i (by simpa using hi)
+  have hg : (L.map List.length).getD i 0 = (L.getD i []).length := by
+    simp [List.getD_eq_getElem?_getD, List.getElem?_eq_getElem hi]
+  rw [hg] at h1
+  generalize sumList ((L.map List.length).take (i + 1)) = o1 at *
+  generalize sumList ((L.map List.length).take i) = o0 at *
+  rw [List.take_take, List.drop_take]
+  conv => rhs; rw [← hs]
+  rw [List.take_take]
+  congr 1
+  omega
+
+/-- **the block loop on a prefix.**  `k` block sizes are known, only the first `m` bytes of the compressed
+    blocks are there: if every block decompresses, the blocks are the first `k` blocks of the array and all of
+    their bytes were there. -/
+theorem blocks_core (compress : Bytes → Bytes) (decompress : Bytes → Option Bytes) (blocks : List Bytes)
+    (H1 : ∀ b ∈ blocks, decompress (compress b) = some b)
+    (H2 : ∀ b ∈ blocks, ∀ t, t < (compress b).length → decompress ((compress b).take t) = none)
+    (k m : Nat) (hk : k ≤ blocks.length) (bs : List Nat)
+    (hbs : bs = (((blocks.map compress).map List.length).take k)) (parts : List Bytes)
+    (hmap : mapM' (fun i => decompress (List.drop ((offsetsOf 0 bs).getD i 0)
+        (List.take ((offsetsOf 0 bs).getD (i + 1) 0) ((blocks.map compress).flatten.take m))))
+        (List.range bs.length) = some parts) :
+    parts = blocks.take k ∧ sumList bs ≤ m := by
+  have hlen : bs.length = k := by rw [hbs]; simp [Nat.min_eq_left hk]
+  -- the argument of the codec for block i < k
+  have harg : ∀ i, i < k → List.drop ((offsetsOf 0 bs).getD i 0)
+        (List.take ((offsetsOf 0 bs).getD (i + 1) 0) ((blocks.map compress).flatten.take m)) =
+      (compress (blocks.getD i [])).take (min (sumList (bs.take (i + 1))) m - sumList (bs.take i)) := by
+    intro i hi
+    have hi' : i < (blocks.map compress).length := by simp; omega
+    rw [offsetsOf_getD bs 0 i (by omega), offsetsOf_getD bs 0 (i + 1) (by omega), Nat.zero_add, Nat.zero_add]
+    have t1 : bs.take i = ((blocks.map compress).map List.length).take i := by
+      rw [hbs, List.take_take, Nat.min_eq_left (by omega)]
+    have t2 : bs.take (i + 1) = ((blocks.map compress).map List.length).take (i + 1) := by
+      rw [hbs, List.take_take, Nat.min_eq_left (by omega)]
+    rw [t1, t2, block_arg _ i m hi']
+    congr 1
+    simp [List.getD_eq_getElem?_getD, List.getElem?_eq_getElem (show i < blocks.length by omega)]
+  have hmem : ∀ i, i < k → blocks.getD i [] ∈ blocks := by
+    intro i hi
+    simp [List.getD_eq_getElem?_getD, List.getElem?_eq_getElem (show i < blocks.length by omega)]
+  have hsz : ∀ i, i < k → sumList (bs.take (i + 1)) = sumList (bs.take i) + (compress (blocks.getD i [])).length := by
+    intro i hi
+    rw [sumList_take_succ bs i (by omega)]
+    congr 1
+    rw [hbs]
+    simp [List.getD_eq_getElem?_getD, hi, List.getElem?_eq_getElem (show i < blocks.length by omega)]
+  constructor
+  · have := mapM'_some _ (fun i => blocks.getD i []) (List.range bs.length) parts ?_ hmap
+    · rw [this, hlen, map_range_getD blocks [] k hk]
+    · intro i hi y hy
+      have hi : i < k := by rw [hlen] at hi; exact List.mem_range.mp hi
+      rw [harg i hi] at hy
+      by_cases hlt : min (sumList (bs.take (i + 1))) m - sumList (bs.take i) < (compress (blocks.getD i [])).length
+      · rw [H2 _ (hmem i hi) _ hlt] at hy; cases hy
+      · rw [List.take_of_length_le (by omega), H1 _ (hmem i hi)] at hy
+        exact (Option.some.inj hy).symm
+  · apply Classical.byContradiction
+    intro hcon
+    obtain ⟨j, hj, h1, h2⟩ := find_block bs m (by omega)
+    rw [hlen] at hj
+    have hnone : decompress (List.drop ((offsetsOf 0 bs).getD j 0)
+        (List.take ((offsetsOf 0 bs).getD (j + 1) 0) ((blocks.map compress).flatten.take m))) = none := by
+      rw [harg j hj]
+      apply H2 _ (hmem j hj)
+      have := hsz j hj
+      omega
+    rw [mapM'_none _ (List.range bs.length) j (by rw [hlen]; exact List.mem_range.mpr hj) hnone] at hmap
+    cases hmap
+
+/-! ### the reader on a strict prefix -/
+
+theorem itemsToBytes_append (h : Nat) (a b : List Nat) :
+    itemsToBytes h (a ++ b) = itemsToBytes h a ++ itemsToBytes h b := by
+  simp [itemsToBytes, List.flatMap_append]
+
+/-- **the compressed reader on a strict prefix**: whatever it returns is the concatenation of the first `k < n`
+    blocks of the array (`k = 0`: nothing) — never the whole array. -/
+theorem compRead_prefix (h : Nat) (E : Enc) (hE : SafeEnc E) (compress : Bytes → Bytes)
+    (decompress : Bytes → Option Bytes) (bsz last : Nat) (blocks : List Bytes) (hh : h ≠ 0) (hne : blocks ≠ [])
+    (hb : ∀ b ∈ blocks, ∀ x ∈ compress b, x < 256)
+    (hn : blocks.length < 256 ^ h) (hbsz : bsz < 256 ^ h) (hlast : last < 256 ^ h)
+    (hsz : ∀ b ∈ blocks, (compress b).length < 256 ^ h)
+    (H1 : ∀ b ∈ blocks, decompress (compress b) = some b)
+    (H2 : ∀ b ∈ blocks, ∀ t, t < (compress b).length → decompress ((compress b).take t) = none)
+    (m : Nat) (hm : m < (encodeCompE h E compress bsz last blocks).length) (out : Bytes)
+    (hr : compReadE h E decompress ((encodeCompE h E compress bsz last blocks).take m) = some out) :
+    ∃ k, k < blocks.length ∧ out = (blocks.take k).flatten := by
+  have hn0 : 0 < blocks.length := List.length_pos_iff.mpr hne
+  -- the three encoded streams
+  have hH3len : (itemsToBytes h [blocks.length, bsz, last]).length = 3 * h := by
+    rw [itemsToBytes_length]; rfl
+  have henc : encodeCompE h E compress bsz last blocks =
+      E.encode (itemsToBytes h [blocks.length, bsz, last]) ++
+        (E.encode (itemsToBytes h ((blocks.map compress).map List.length)) ++
+          E.encode (blocks.map compress).flatten) := by
+    unfold encodeCompE
+    simp only []
+    rw [itemsToBytes_append, hE.enc_split h _ _ hH3len, List.append_assoc]
+  have hSlen : ((blocks.map compress).map List.length).length = blocks.length := by simp
+  have hSbnd : ∀ x ∈ (blocks.map compress).map List.length, x < 256 ^ h := by
+    intro x hx
+    simp only [List.mem_map] at hx
+    obtain ⟨c, ⟨b, hb', rfl⟩, rfl⟩ := hx
+    exact hsz b hb'
+  have hHbnd : ∀ x ∈ [blocks.length, bsz, last], x < 256 ^ h := by
+    intro x hx
+    simp only [List.mem_cons, List.not_mem_nil, or_false] at hx
+    rcases hx with rfl | rfl | rfl <;> assumption
+  have hBlt : ∀ x ∈ (blocks.map compress).flatten, x < 256 := by
+    intro x hx
+    simp only [List.mem_flatten, List.mem_map] at hx
+    obtain ⟨c, ⟨b, hb', rfl⟩, hx⟩ := hx
+    exact hb b hb' x hx
+  have hBlen := flatten_length_sumList (blocks.map compress)
+  rw [henc] at hr hm
+  generalize hS : (blocks.map compress).map List.length = S at *
+  generalize hB : (blocks.map compress).flatten = B at *
+  have l1 : (E.encode (itemsToBytes h [blocks.length, bsz, last])).length = E.encodedBytes (3 * h) := by rw [hE.enc_len, hH3len]
+  have l2 : (E.encode (itemsToBytes h S)).length = E.encodedBytes (blocks.length * h) := by
+    rw [hE.enc_len, itemsToBytes_length, hSlen]
+  have l3 : (E.encode B).length = E.encodedBytes (sumList S) := by rw [hE.enc_len, hBlen]
+  have hH3lt : ∀ b ∈ itemsToBytes h [blocks.length, bsz, last], b < 256 := itemsToBytes_lt _ _
+  unfold compReadE at hr
+  simp only [Option.bind_eq_bind, Option.bind_eq_some_iff] at hr
+  obtain ⟨hbytes, hd1, header, hf1, nb, hnb, sb, hd2, sizes, hf2, x1, hx1, decoded, hd3, hfin⟩ := hr
+  rw [← l1, take_take_append] at hd1
+  by_cases c1 : m < (E.encode (itemsToBytes h [blocks.length, bsz, last])).length
+  · -- the cut is inside the header [#blocks, block size, last]
+    obtain ⟨t, ht, rfl⟩ := hE.dec_take (itemsToBytes h [blocks.length, bsz, last]) hH3lt m c1 hbytes hd1
+    rw [List.take_take, Nat.min_eq_right (by omega)] at hf1
+    obtain ⟨rfl, _, _⟩ := frombuffer_take h _ hHbnd t (by omega) header hf1
+    have hq : t / h < 3 := by
+      rw [hH3len] at ht
+      exact Nat.div_lt_of_lt_mul (by omega)
+    have hdrop : List.drop (E.encodedBytes (3 * h))
+        (List.take m (E.encode (itemsToBytes h [blocks.length, bsz, last]) ++ (E.encode (itemsToBytes h S) ++ E.encode B))) = [] := by
+      apply List.drop_of_length_le
+      rw [List.length_take]; omega
+    rw [hdrop, List.take_nil, hE.dec_nil] at hd2
+    cases Option.some.inj hd2
+    have hf2' : sizes = [] := by
+      simp only [List.take_nil, frombuffer] at hf2
+      rw [if_neg (by simp [hh])] at hf2
+      simpa [takeItems] using (Option.some.inj hf2).symm
+    subst hf2'
+    match hq' : t / h, hq with
+    | 0, _ => rw [hq'] at hnb; simp at hnb
+    | 1, _ => rw [hq'] at hx1; simp at hx1
+    | 2, _ =>
+      rw [hq'] at hfin
+      simp only [List.take_succ_cons, List.take_zero, List.append_nil, List.drop_succ_cons, List.drop_nil,
+        List.isEmpty_nil, if_true] at hfin
+      exact ⟨0, hn0, by simpa using (Option.some.inj hfin).symm⟩
+  · -- the header is complete
+    rw [List.take_of_length_le (by omega), hE.dec_enc (itemsToBytes h [blocks.length, bsz, last]) hH3lt] at hd1
+    cases Option.some.inj hd1
+    rw [← hH3len, List.take_of_length_le (Nat.le_refl _), frombuffer_itemsToBytes hh _ hHbnd] at hf1
+    cases Option.some.inj hf1
+    simp only [List.getElem?_cons_zero, Option.some.injEq] at hnb
+    subst hnb
+    rw [← l1, ← l2, drop_take_append, take_take_append] at hd2
+    by_cases c2 : m - (E.encode (itemsToBytes h [blocks.length, bsz, last])).length
+        < (E.encode (itemsToBytes h S)).length
+    · -- the cut is inside the list of block sizes
+      obtain ⟨t, ht, rfl⟩ := hE.dec_take _ (itemsToBytes_lt h S) _ c2 sb hd2
+      rw [List.take_take] at hf2
+      have ht' : min (E.encodedBytes (blocks.length * h)) t < blocks.length * h := by
+        rw [itemsToBytes_length, hSlen] at ht; omega
+      obtain ⟨rfl, _, _⟩ := frombuffer_take h S hSbnd _ (by rw [itemsToBytes_length, hSlen]; omega) sizes hf2
+      generalize hk : min (E.encodedBytes (blocks.length * h)) t / h = k at *
+      have hklt : k < blocks.length := by
+        rw [← hk]; exact Nat.div_lt_of_lt_mul (Nat.lt_of_lt_of_eq ht' (Nat.mul_comm _ _))
+      have hdrop : List.drop (E.encodedBytes (3 * h) + E.encodedBytes (blocks.length * h))
+          (List.take m (E.encode (itemsToBytes h [blocks.length, bsz, last]) ++
+            (E.encode (itemsToBytes h S) ++ E.encode B))) = [] := by
+        apply List.drop_of_length_le
+        rw [List.length_take]; omega
+      rw [hdrop, List.take_nil, hE.dec_nil] at hd3
+      cases Option.some.inj hd3
+      simp only [List.cons_append, List.drop_succ_cons, List.drop_zero, List.nil_append] at hfin
+      by_cases hemp : (List.take k S).isEmpty = true
+      · rw [if_pos hemp] at hfin
+        exact ⟨0, hn0, by simpa using (Option.some.inj hfin).symm⟩
+      · rw [if_neg hemp] at hfin
+        simp only [Option.bind_eq_some_iff] at hfin
+        obtain ⟨parts, hmap, hout⟩ := hfin
+        have hmap' : mapM' (fun i => decompress (List.drop ((offsetsOf 0 (List.take k S)).getD i 0)
+            (List.take ((offsetsOf 0 (List.take k S)).getD (i + 1) 0) ((blocks.map compress).flatten.take 0))))
+            (List.range (List.take k S).length) = some parts := by
+          simpa using hmap
+        obtain ⟨hp, _⟩ := blocks_core compress decompress blocks H1 H2 k 0 (by omega) (List.take k S)
+          (by rw [hS]) parts hmap'
+        refine ⟨k, hklt, ?_⟩
+        rw [← Option.some.inj hout, hp, List.flatMap_id]
+    · -- header and block sizes are complete: the cut is inside the compressed blocks
+      rw [List.take_of_length_le (by omega), hE.dec_enc _ (itemsToBytes_lt h S)] at hd2
+      cases Option.some.inj hd2
+      have hge := hE.eb_ge (blocks.length * h)
+      rw [List.take_of_length_le (by rw [itemsToBytes_length, hSlen]; omega),
+        frombuffer_itemsToBytes hh S hSbnd] at hf2
+      cases Option.some.inj hf2
+      simp only [List.cons_append, List.drop_succ_cons, List.drop_zero, List.nil_append] at hfin hd3
+      have hdrop : List.drop (E.encodedBytes (3 * h) + E.encodedBytes (blocks.length * h))
+          (List.take m (E.encode (itemsToBytes h [blocks.length, bsz, last]) ++
+            (E.encode (itemsToBytes h S) ++ E.encode B))) =
+          (E.encode B).take (m - (E.encodedBytes (3 * h) + E.encodedBytes (blocks.length * h))) := by
+        rw [← List.append_assoc, ← l1, ← l2, ← List.length_append, drop_take_append]
+      rw [hdrop, ← l3, List.take_take] at hd3
+      have hm' : min (E.encode B).length (m - (E.encodedBytes (3 * h) + E.encodedBytes (blocks.length * h)))
+          < (E.encode B).length := by
+        simp only [List.length_append] at hm; omega
+      obtain ⟨t, ht, rfl⟩ := hE.dec_take B hBlt _ hm' decoded hd3
+      have hSne : S.isEmpty = false := by
+        cases hSe : S with
+        | nil => rw [hSe] at hSlen; simp at hSlen; omega
+        | cons _ _ => rfl
+      rw [hSne] at hfin
+      simp only [Bool.false_eq_true, if_false, Option.bind_eq_some_iff] at hfin
+      obtain ⟨parts, hmap, _⟩ := hfin
+      have hmap' : mapM' (fun i => decompress (List.drop ((offsetsOf 0 S).getD i 0)
+          (List.take ((offsetsOf 0 S).getD (i + 1) 0) ((blocks.map compress).flatten.take t))))
+          (List.range S.length) = some parts := by
+        rw [hB]; exact hmap
+      obtain ⟨_, hle⟩ := blocks_core compress decompress blocks H1 H2 blocks.length t (Nat.le_refl _) S
+        (by rw [hS, List.take_of_length_le (by omega)]) parts hmap'
+      omega
+
 end Fc.W
